@@ -175,6 +175,13 @@ def run(tier, rep):
                     rep.violation("option:%s.%s=%s" % (it["owner"], it["attr"], row["name"]),
                                   "%s.%s = %r stores %s in the C member but %s is %s; reads back as %r"
                                   % (it["owner"], it["attr"], row["name"], row["stored"], row["symbol"], row["expected"], row["readback"]), {"row": row})
+    # shortcut names of the integrator property: history independence
+    sh = json.load(open(tf + ".shortcuts"))
+    for row in sh["rows"]:
+        nopt += 1
+        if row["got"] != row["want"]:
+            rep.violation("shortcut:%s" % row["then"], "sim.integrator = %r after sim.integrator = %r leaves %s, on a fresh simulation it selects %s"
+                          % (row["then"], row["first"], json.dumps(row["got"]), json.dumps(row["want"])), row)
     if res.violation and not rep.violations and not rep.known_hits:
         raise MachineryError("TLC reports %s on the extracted tables but the per-item narrowing found nothing" % res.violation)
     rep.cov.update({"structures_compared": len([i for i in items if i["kind"] == "struct"]), "members_compared": nmem,
